@@ -36,8 +36,18 @@ ASSUMPTIONS = ["blocks are left in LIFO order (a `with` statement cannot do othe
 
 @symbol
 @dataclass(eq=False)
+class B2:
+    """built by B.twin() while a query is evaluated (user code reached through a method call, no predicate involved)"""
+    n: int
+
+
+@symbol
+@dataclass(eq=False)
 class B:
     n: int
+
+    def twin(self):
+        return B2(self.n)
 
 
 @predicate
@@ -85,7 +95,7 @@ def plan(tier, seed):
 def floors(tier):
     return {"distinct_nontrivial": 800, "observations": 20000, "op:enter_q": 500, "op:enter_r": 500, "op:enter_rq": 300,
             "op:enter_qq": 300, "op:with_query": 300, "op:leave": 1000, "op:raise_leave": 300, "op:mkit": 1000,
-            "op:next": 1000, "op:close": 300, "op:drop": 300, "op:exhaust": 300, "op:the_eval": 500, "op:an_list": 500, "op:an_raise": 400, "op:the_multi_sub": 400,
+            "op:next": 1000, "op:close": 300, "op:drop": 300, "op:exhaust": 300, "op:the_eval": 500, "op:an_list": 500, "op:an_raise": 300, "op:the_multi_sub": 300, "op:an_plain_method": 300, "op:block_term_then_rule": 300,
             "op:reenter_open_query": 300, "thread_probes": 3000, "generator_domain_probes": 300,
             "cls:iterator_op_at_other_depth": 800}
 
@@ -96,7 +106,8 @@ def cases(spec, ctx):
         ops = []
         depth, live = 0, 0
         for _ in range(rng.randint(6, 16)):
-            choices = ["mkit", "the_eval", "an_list", "an_raise", "the_multi_sub"] if live < 3 else ["the_eval", "an_list", "an_raise", "the_multi_sub"]
+            extra_ops = ["the_eval", "an_list", "an_raise", "the_multi_sub", "an_plain_method", "block_term_then_rule"]
+            choices = ["mkit"] + extra_ops if live < 3 else list(extra_ops)
             if depth < 4:
                 choices += OPS_ENTER
             if depth:
@@ -113,7 +124,7 @@ def cases(spec, ctx):
             elif op == "mkit":
                 live += 1
                 ops.append([op])
-            elif op in ("the_eval", "an_list", "an_raise", "the_multi_sub"):
+            elif op in ("the_eval", "an_list", "an_raise", "the_multi_sub", "an_plain_method", "block_term_then_rule"):
                 ops.append([op])
             else:
                 idx = rng.randrange(live)
@@ -294,6 +305,22 @@ def check_case(case, ctx):
                 for o in mkq().evaluate():
                     if type(o) is not B:
                         fail = {"what": "RESULT_NOT_A_REAL_INSTANCE", "observed": type(o).__name__}
+            elif name == "an_plain_method":
+                # a query WITHOUT any predicate term whose condition reaches user code that constructs a @symbol object
+                with symbolic_mode():
+                    x4 = let(B, bs)
+                    pq = an(entity(x4, x4.twin().n > 1))
+                got_n = [getattr(o, "n", None) for o in pq.evaluate()]
+                if got_n != [2, 3, 4]:
+                    fail = {"what": "USER_CODE_SAW_SYMBOLIC_MODE_DURING_EVALUATION", "observed": got_n, "expected": [2, 3, 4]}
+            elif name == "block_term_then_rule":
+                # a predicate term added in the block of a query, then rule_mode(query) opened and left: nothing stays behind
+                from entity_query_language import HasType
+                with symbolic_mode():
+                    with an(entity(let(B, bs))) as bq:
+                        HasType(B)
+                with rule_mode(bq):
+                    pass
             elif name == "an_raise":
                 # user code raises while a result is being computed; the exception is handled right here, at the current nesting
                 with symbolic_mode():
